@@ -2,6 +2,8 @@
 """run_seeded.py <patch.diff> [props...]  — analyse a scratch copy of /repo with the patch applied; print which checks fire"""
 import os, shutil, subprocess, sys, tempfile
 HERE = os.path.dirname(os.path.dirname(os.path.abspath(__file__)))
+verbose = '-v' in sys.argv
+sys.argv = [a for a in sys.argv if a != '-v']
 patch = os.path.abspath(sys.argv[1])
 props = sys.argv[2:] or ['all']
 d = tempfile.mkdtemp(prefix='nlseed.', dir='/tmp')
@@ -18,6 +20,8 @@ try:
     env = dict(os.environ, NL_REPO=d, NL_EVIDENCE_DIR=os.path.join(d, '_ev'), NL_REPLAY_DIR=os.path.join(d, '_rp'))
     r = subprocess.run([sys.executable, os.path.join(HERE, 'check.py')] + props, env=env, stdout=subprocess.PIPE, stderr=subprocess.STDOUT, text=True, timeout=1200)
     lines = r.stdout.split('\n')
+    if verbose:
+        print(r.stdout)
     hits = {}
     for i, l in enumerate(lines):
         if l.startswith('VIOLATION property='):
